@@ -1219,7 +1219,10 @@ class Store:
                 child.apply_defaults()
         else:
             if self.value is None:
-                self.value = self.default
+                # a copy: the default object belongs to the schema and is
+                # shared by every node built from that schema (all the
+                # children of a glob port, the daughters of a division)
+                self.value = copy.deepcopy(self.default)
 
     def add(self, added):
         key = added['key']
